@@ -296,8 +296,10 @@ def trig_paused_items_task_done(sess, upto=None):
         for s in st["staged"]:
             items = [x["status"] for x in s.get("items", [])]
             key = "%s__r%s" % (s["id"], s["route"])
+            # the paused row of the task table accepts no item event: neither a completion nor a resume of the item
+            # that was paused or pending is taken into account, so the task stays paused with no item dormant
             if items and key in st["tasks"] and st["sequence"][st["tasks"][key]].get("status") == "paused" \
-                    and all(x in ("succeeded", "failed", "timeout", "abandoned", "canceled", "null") for x in items):
+                    and not any(x in ("paused", "pending") for x in items):
                 return True
     return False
 
